@@ -414,13 +414,33 @@ def load_driver(prop):
     return importlib.import_module(f"harness.drivers.{prop.lower()}")
 
 
+class CaseTimeout(BaseException):
+    """Raised by the per-case alarm: the implementation did not finish the case (hang / livelock)."""
+
+
+def _alarm(signum, frame):
+    raise CaseTimeout()
+
+
 def run_impl_safe(driver, case):
+    import signal
+    limit = int(getattr(driver, "CASE_TIMEOUT", 30))
+    use_alarm = hasattr(signal, "SIGALRM") and limit > 0
+    if use_alarm:
+        old = signal.signal(signal.SIGALRM, _alarm)
+        signal.alarm(limit)
     try:
         return driver.run_impl(case)
+    except CaseTimeout:
+        return {"harness_escape": f"timeout: the implementation did not finish this case within {limit} s (hang or livelock)"}
     except BaseException as ex:  # a harness bug or an escape the driver did not expect
         if isinstance(ex, (KeyboardInterrupt, SystemExit)):
             raise
         return {"harness_escape": f"{type(ex).__name__}: {ex}"}
+    finally:
+        if use_alarm:
+            signal.alarm(0)
+            signal.signal(signal.SIGALRM, old)
 
 
 def check(prop, tier="quick", seed=0):
@@ -455,7 +475,16 @@ def check(prop, tier="quick", seed=0):
         cases.append(c); origin.append("seeded")
 
     # 3. implementation run + oracle
-    obs = [run_impl_safe(driver, c) for c in cases]
+    obs, n_timeouts = [], 0
+    for c in cases:
+        o = run_impl_safe(driver, c)
+        obs.append(o)
+        if isinstance(o, dict) and str(o.get("harness_escape", "")).startswith("timeout"):
+            n_timeouts += 1
+            if n_timeouts >= 3:      # the implementation hangs: three witnesses are enough, do not wait for the rest
+                ctx.notes.append(f"stopped after {n_timeouts} case timeouts; {len(cases) - len(obs)} cases not run")
+                break
+    cases, origin = cases[:len(obs)], origin[:len(obs)]
     verdicts = []
     for c, o in zip(cases, obs):
         if isinstance(o, dict) and "harness_escape" in o:
@@ -494,7 +523,8 @@ def check(prop, tier="quick", seed=0):
     for i, why in enumerate(verdicts):
         if why is None:
             continue
-        cls = driver.classify(cases[i], obs[i], why) if hasattr(driver, "classify") else None
+        escaped = isinstance(obs[i], dict) and "harness_escape" in obs[i]
+        cls = driver.classify(cases[i], obs[i], why) if hasattr(driver, "classify") and not escaped else None
         if cls is not None and cls in open_ids:
             ctx.known_hits[cls] = ctx.known_hits.get(cls, 0) + 1
             continue
